@@ -121,6 +121,37 @@ theorem planL4_groups (inUse : List String) (gens : List Gen) :
 theorem planFull_groups (inUse : List String) (gens : List Gen) :
     (fullGens inUse gens).flatten.Sublist gens := fullGens_sub inUse gens
 
+/-- Plan, full path, when nothing stands in the way (no generation in use, none above
+    the maximum file size): the group is ALL generations — contiguous.  The full path
+    is non-contiguous only through its two skip rules (`C05_full_fails`). -/
+theorem planFull_all_when_nothing_skipped (inUse : List String) (gens : List Gen)
+    (hu : ∀ g ∈ gens, isInUse inUse g = false)
+    (hs : ∀ g ∈ gens, g.size ≤ Influx.Generated.Planner.MaxTSMFileSize) :
+    ∀ gs ∈ fullGens inUse gens, gs = gens := by
+  have key : ∀ (n : Nat) (l : List Gen), (∀ g ∈ l, isInUse inUse g = false) →
+      (∀ g ∈ l, g.size ≤ Influx.Generated.Planner.MaxTSMFileSize) → fullLoop inUse n l = l := by
+    intro n l
+    induction l with
+    | nil => intro _ _; rfl
+    | cons g rest ih =>
+      intro h1 h2
+      have hg1 := h1 g (by simp)
+      have hg2 := h2 g (by simp)
+      have hskip : fullSkip n g rest = false := by
+        have hle : ¬ (g.size > Influx.Generated.Planner.MaxTSMFileSize) := by omega
+        cases rest with
+        | nil => simp [fullSkip, hle]
+        | cons nx _ => simp only [fullSkip]; split <;> simp [hle]
+      simp only [fullLoop, hg1, hskip, Bool.false_eq_true, if_false]
+      rw [ih (fun x hx => h1 x (by simp [hx])) (fun x hx => h2 x (by simp [hx]))]
+  intro gs hgs
+  unfold fullGens at hgs
+  simp only at hgs
+  split at hgs
+  · simp at hgs
+  · rw [key gens.length gens hu hs] at hgs
+    simpa using hgs
+
 /-- `FindGenerations`: ascending distinct ids, every file under its own generation, all files -/
 theorem findGenerations_spec (fs : List File) :
     (findGenerations fs).Pairwise (fun a b => a.id < b.id) ∧
